@@ -417,3 +417,464 @@ Proof.
   - intros u Hu. split; [exact I|]. unfold std_cauchy_ppf, std_cauchy_cdf.
     rewrite atan_tan by (apply std_cauchy_ppf_arg; exact Hu). field. lra.
 Qed.
+
+(* ---------------- chains of transformations ---------------- *)
+Lemma pushes_base_ext (supp_b supp : R -> Prop) (g ginv dginv base base' pdf : R -> R) :
+  (forall u, supp_b u -> base u = base' u) ->
+  pushes supp_b supp g ginv dginv base pdf -> pushes supp_b supp g ginv dginv base' pdf.
+Proof.
+  intros E [H1 [H2 H3]]. split; [exact H1|]. split; [|exact H3].
+  intros x Hx. destruct (H2 x Hx) as [A [B [C [D F]]]]. repeat (split; try assumption). rewrite <- E by exact A. exact F.
+Qed.
+
+(* if g1 pushes base to mid and g2 pushes mid to pdf, then g2 o g1 pushes base to pdf (inverse: ginv1 o ginv2, derivative by
+   the chain rule) *)
+Theorem pushes_compose (sb sm s : R -> Prop) (g1 g1inv d1 g2 g2inv d2 base mid pdf : R -> R) :
+  pushes sb sm g1 g1inv d1 base mid -> pushes sm s g2 g2inv d2 mid pdf ->
+  pushes sb s (fun u => g2 (g1 u)) (fun x => g1inv (g2inv x)) (fun x => d1 (g2inv x) * d2 x) base pdf.
+Proof.
+  intros [A1 [A2 A3]] [B1 [B2 B3]]. split; [|split].
+  - intros u Hu. destruct (A1 u Hu) as [M E1]. destruct (B1 _ M) as [S E2]. split; [exact S|]. rewrite E2. exact E1.
+  - intros x Hx. destruct (B2 x Hx) as [M [E2 [D2 [N2 P2]]]]. destruct (A2 _ M) as [U [E1 [D1 [N1 P1]]]].
+    split; [exact U|]. split; [rewrite E1; exact E2|]. split; [|split].
+    + evar_last; [apply (is_derive_comp g1inv g2inv x _ _ D1 D2)|]. unfold scal; simpl; unfold mult; simpl. ring.
+    + apply Rmult_integral_contrapositive_currified; assumption.
+    + rewrite Rabs_mult, <- Rmult_assoc, P1. exact P2.
+  - destruct A3 as [A3|A3]; destruct B3 as [B3|B3].
+    + left. intros u v Hu Hv L. apply B3; [apply A1; exact Hu | apply A1; exact Hv | apply A3; assumption].
+    + right. intros u v Hu Hv L. apply B3; [apply A1; exact Hu | apply A1; exact Hv | apply A3; assumption].
+    + right. intros u v Hu Hv L. apply B3; [apply A1; exact Hv | apply A1; exact Hu | apply A3; assumption].
+    + left. intros u v Hu Hv L. apply B3; [apply A1; exact Hv | apply A1; exact Hu | apply A3; assumption].
+Qed.
+
+Lemma normal_pdf_is_cuqi mean std y : 0 < std -> exp (cuqi_normal_logpdf mean std y) = normal_pdf mean std y.
+Proof.
+  intros Hs. rewrite <- wiring_normal by exact Hs. unfold np_normal_pdf, normal_pdf. f_equal. f_equal. field. lra.
+Qed.
+
+(* Lognormal(mean, cov = std^2), one component, from the standard normal variate the generator delivers:
+   x = exp(mean + std z) has the density the class reports *)
+Theorem push_lognormal_from_std mean std : 0 < std ->
+  pushes everywhere positive_R (fun z => exp (normal_push mean std z)) (fun x => affine_inv mean std (ln x))
+         (fun x => / std * / x) std_normal_pdf (cuqi_lognormal_pdf mean std).
+Proof.
+  intros Hs.
+  apply (pushes_compose everywhere everywhere positive_R (normal_push mean std) (affine_inv mean std) (fun _ => / std)
+           exp ln (fun x => / x) std_normal_pdf (normal_pdf mean std) (cuqi_lognormal_pdf mean std)).
+  - apply (pushes_ext everywhere everywhere (normal_push mean std) (normal_push mean std) (affine_inv mean std) (affine_inv mean std)
+             (fun _ => / std) (fun _ => / std) std_normal_pdf (fun x => exp (cuqi_normal_logpdf mean std x))); try reflexivity.
+    + intros x _. apply normal_pdf_is_cuqi. exact Hs.
+    + apply push_normal. exact Hs.
+  - apply push_lognormal.
+Qed.
+
+(* ModifiedHalfNormal scheme 1 from the base variate: T = rng.gamma(alpha/2, 1.0/delta) = (1/delta) G, X = sqrt T *)
+Lemma gamma_pdf_is_logpdf Gam k d t : 0 < Gam -> 0 < d -> 0 < t ->
+  cuqi_gamma_pdf Gam k d t = exp (gamma_logpdf (ln Gam) k d t).
+Proof.
+  intros HG Hd Ht. unfold cuqi_gamma_pdf, gamma_logpdf, Rpower.
+  replace ((k - 1) * ln t - d * t + k * ln d - ln Gam) with (k * ln d + ((k - 1) * ln t + (- d * t + - ln Gam))) by ring.
+  rewrite !exp_plus, exp_Ropp, exp_ln by exact HG. field. lra.
+Qed.
+
+Theorem push_mhn_scheme1 Gam a d : 0 < Gam -> 0 < d ->
+  pushes positive_R positive_R (fun g => sqrt (gamma_push d g)) (fun x => gamma_inv d (x ^ 2)) (fun x => d * (2 * x))
+         (std_gamma_pdf Gam (a / 2)) (fun x => exp (mhn_gam_logg (ln Gam) a d x)).
+Proof.
+  intros HG Hd.
+  apply (pushes_compose positive_R positive_R positive_R (gamma_push d) (gamma_inv d) (fun _ => d)
+           sqrt (fun x => x ^ 2) (fun x => 2 * x) (std_gamma_pdf Gam (a / 2))
+           (fun t => exp (gamma_logpdf (ln Gam) (a / 2) d t)) (fun x => exp (mhn_gam_logg (ln Gam) a d x))).
+  - apply (pushes_ext positive_R positive_R (gamma_push d) (gamma_push d) (gamma_inv d) (gamma_inv d) (fun _ => d) (fun _ => d)
+             (std_gamma_pdf Gam (a / 2)) (cuqi_gamma_pdf Gam (a / 2) d)); try reflexivity.
+    + intros t Ht. apply gamma_pdf_is_logpdf; assumption.
+    + apply push_gamma; [exact Hd | lra].
+  - apply push_mhn_sqrt_gamma.
+Qed.
+
+(* ---------------- soundness of the correspondence check over Q ---------------- *)
+From Coq Require Import Qabs List.
+Open Scope R_scope.
+Lemma Q2R_0 : Q2R 0 = 0. Proof. unfold Q2R. simpl. field. Qed.
+Lemma Q2R_Qabs x : Q2R (Qabs x) = Rabs (Q2R x).
+Proof.
+  apply Qabs_case; intros H; apply Qle_Rle in H; rewrite Q2R_0 in H.
+  - rewrite Rabs_pos_eq; [reflexivity | exact H].
+  - rewrite Q2R_opp. rewrite Rabs_left1; [reflexivity | exact H].
+Qed.
+
+Lemma q_rel_close_sound tol a b : q_rel_close tol a b = true ->
+  Rabs (Q2R a - Q2R b) <= Q2R tol * (1 + Rabs (Q2R b)).
+Proof.
+  unfold q_rel_close. intros H. apply Qle_bool_imp_le in H. apply Qle_Rle in H.
+  rewrite Q2R_Qabs, Q2R_minus, Q2R_mult, Q2R_plus, Q2R_Qabs, Q2R_1 in H. exact H.
+Qed.
+
+(* an accepted row: the observed draw is within tol (1 + |.|) of the R-level transformation of the (exact rational images of the)
+   parameters and base variates -- the g of the theorems push_normal / push_uniform / push_gamma / push_beta_joint *)
+Definition push_row_R (r : push_row) : R * R :=
+  match r with
+  | PNormal m s z o => (Q2R o, normal_push (Q2R m) (Q2R s) (Q2R z))
+  | PUniform l h u o => (Q2R o, uniform_push (Q2R l) (Q2R h) (Q2R u))
+  | PGamma r g o => (Q2R o, gamma_push (Q2R r) (Q2R g))
+  | PBeta ga gb o => (Q2R o, beta_push (Q2R ga) (Q2R gb))
+  end.
+
+Theorem push_row_ok_sound tol r : push_row_ok tol r = true ->
+  Rabs (fst (push_row_R r) - snd (push_row_R r)) <= Q2R tol * (1 + Rabs (snd (push_row_R r))).
+Proof.
+  destruct r as [m s z o|l h u o|r g o|ga gb o]; cbn [push_row_ok push_row_R fst snd]; intros H.
+  - rewrite <- normal_push_q_R. apply q_rel_close_sound. exact H.
+  - rewrite <- uniform_push_q_R. apply q_rel_close_sound. exact H.
+  - apply andb_prop in H. destruct H as [N H]. apply negb_true_iff in N. apply Qeq_bool_neq in N.
+    rewrite <- gamma_push_q_R by exact N. apply q_rel_close_sound. exact H.
+  - apply andb_prop in H. destruct H as [N H]. apply negb_true_iff in N. apply Qeq_bool_neq in N.
+    rewrite <- beta_push_q_R by exact N. apply q_rel_close_sound. exact H.
+Qed.
+
+Theorem check_push_sound rows : check_push rows = true ->
+  forall r, In r rows ->
+    Rabs (fst (push_row_R r) - snd (push_row_R r)) <= Q2R (1 # 1000000000) * (1 + Rabs (snd (push_row_R r))).
+Proof.
+  unfold check_push. intros H r Hin. rewrite forallb_forall in H. apply push_row_ok_sound. apply H. exact Hin.
+Qed.
+
+(* ---------------- from the differential form to probabilities of intervals ----------------
+   If Fb is a distribution function of the base law (Fb' = base on the base support) then for every interval [a,b] inside the
+   support the integral of the documented pdf over [a,b] is the base probability of the pre-image of (a,b] under the
+   transformation: Fb(ginv b) - Fb(ginv a) for an increasing g, Fb(ginv a) - Fb(ginv b) for a decreasing one. *)
+Theorem pushes_interval_increasing (supp_b supp : R -> Prop) (g ginv dginv base pdf Fb : R -> R) a b :
+  pushes supp_b supp g ginv dginv base pdf ->
+  (forall x, supp x -> 0 < dginv x) ->
+  (forall u, supp_b u -> is_derive Fb u (base u)) ->
+  a <= b -> (forall x, a <= x <= b -> supp x) -> (forall x, a <= x <= b -> continuous pdf x) ->
+  is_RInt pdf a b (Fb (ginv b) - Fb (ginv a)).
+Proof.
+  intros [_ [H2 _]] Hpos HFb Hab Hsupp Hcont.
+  apply (is_RInt_derive (fun x => Fb (ginv x)) pdf a b).
+  - intros x Hx. rewrite Rmin_left, Rmax_right in Hx by exact Hab.
+    destruct (H2 x (Hsupp x Hx)) as [A [_ [D [_ E]]]]. rewrite Rabs_pos_eq in E by (left; apply Hpos, Hsupp, Hx).
+    evar_last; [apply (is_derive_comp Fb ginv x _ _ (HFb _ A) D)|]. unfold scal; simpl; unfold mult; simpl. rewrite <- E. ring.
+  - intros x Hx. rewrite Rmin_left, Rmax_right in Hx by exact Hab. apply Hcont. exact Hx.
+Qed.
+
+Theorem pushes_interval_decreasing (supp_b supp : R -> Prop) (g ginv dginv base pdf Fb : R -> R) a b :
+  pushes supp_b supp g ginv dginv base pdf ->
+  (forall x, supp x -> dginv x < 0) ->
+  (forall u, supp_b u -> is_derive Fb u (base u)) ->
+  a <= b -> (forall x, a <= x <= b -> supp x) -> (forall x, a <= x <= b -> continuous pdf x) ->
+  is_RInt pdf a b (Fb (ginv a) - Fb (ginv b)).
+Proof.
+  intros [_ [H2 _]] Hneg HFb Hab Hsupp Hcont.
+  replace (Fb (ginv a) - Fb (ginv b)) with ((fun x => - Fb (ginv x)) b - (fun x => - Fb (ginv x)) a) by ring.
+  apply (is_RInt_derive (fun x => - Fb (ginv x)) pdf a b).
+  - intros x Hx. rewrite Rmin_left, Rmax_right in Hx by exact Hab.
+    destruct (H2 x (Hsupp x Hx)) as [A [_ [D [_ E]]]]. rewrite Rabs_left in E by (apply Hneg, Hsupp, Hx).
+    evar_last; [exact (is_derive_opp (fun t => Fb (ginv t)) x _ (is_derive_comp Fb ginv x _ _ (HFb _ A) D))|].
+    unfold opp, scal; simpl; unfold mult; simpl. rewrite <- E. ring.
+  - intros x Hx. rewrite Rmin_left, Rmax_right in Hx by exact Hab. apply Hcont. exact Hx.
+Qed.
+
+(* instances: the continuity side condition discharged *)
+Lemma continuous_normal_pdf mean std x : 0 < std -> continuous (fun x => exp (cuqi_normal_logpdf mean std x)) x.
+Proof.
+  intros Hs. apply (ex_derive_continuous (K := R_AbsRing) (V := R_NormedModule) (fun x => exp (cuqi_normal_logpdf mean std x)) x).
+  unfold cuqi_normal_logpdf. auto_derive. exact I.
+Qed.
+
+Theorem normal_interval_prob (Phi : R -> R) mean std a b : 0 < std -> a <= b ->
+  (forall z, is_derive Phi z (std_normal_pdf z)) ->
+  is_RInt (fun x => exp (cuqi_normal_logpdf mean std x)) a b (Phi ((b - mean) / std) - Phi ((a - mean) / std)).
+Proof.
+  intros Hs Hab HPhi.
+  apply (pushes_interval_increasing everywhere everywhere (normal_push mean std) (affine_inv mean std) (fun _ => / std)
+           std_normal_pdf (fun x => exp (cuqi_normal_logpdf mean std x)) Phi a b); try (intros; exact I); try assumption.
+  - apply push_normal. exact Hs.
+  - intros x _. apply Rinv_0_lt_compat. exact Hs.
+  - intros u _. apply HPhi.
+  - intros x _. apply continuous_normal_pdf. exact Hs.
+Qed.
+
+(* Uniform: the base distribution function on [0,1) is the identity -- no hypothesis left *)
+Theorem uniform_interval_prob low high a b : low < high -> low <= a -> a <= b -> b < high ->
+  is_RInt (fun _ => exp (cuqi_uniform_logpdf low high)) a b ((b - low) / (high - low) - (a - low) / (high - low)).
+Proof.
+  intros H La Hab Hb.
+  apply (pushes_interval_increasing unit_half_open (fun x => low <= x < high) (uniform_push low high) (affine_inv low (high - low))
+           (fun _ => / (high - low)) std_uniform_pdf (fun _ => exp (cuqi_uniform_logpdf low high)) (fun u => u) a b).
+  - apply push_uniform. exact H.
+  - intros x _. apply Rinv_0_lt_compat. lra.
+  - intros u _. unfold std_uniform_pdf. auto_derive; [exact I | ring].
+  - exact Hab.
+  - intros x Hx. lra.
+  - intros x _. apply continuous_const.
+Qed.
+
+(* Cauchy and Laplace are drawn from a UNIFORM base variate, whose distribution function on (0,1) is the identity: nothing is left
+   to assume -- the integral of the class's pdf over [a,b] is exactly the length of the pre-image interval of uniforms *)
+Lemma continuous_cauchy_pdf loc scale x : 0 < scale -> continuous (fun x => exp (cuqi_cauchy_logpdf loc scale x)) x.
+Proof.
+  intros Hs. apply (ex_derive_continuous (K := R_AbsRing) (V := R_NormedModule) (fun x => exp (cuqi_cauchy_logpdf loc scale x)) x).
+  unfold cuqi_cauchy_logpdf. auto_derive. pose proof PI_RGT_0. set (q := (x + - loc) * / scale).
+  assert (0 <= q * (q * 1)) by nra. apply Rmult_lt_0_compat; [apply Rmult_lt_0_compat|]; lra.
+Qed.
+
+Theorem cauchy_interval_prob loc scale a b : 0 < scale -> a <= b ->
+  is_RInt (fun x => exp (cuqi_cauchy_logpdf loc scale x)) a b (cauchy_inv loc scale b - cauchy_inv loc scale a).
+Proof.
+  intros Hs Hab.
+  apply (pushes_interval_increasing unit_open everywhere (cauchy_push loc scale) (cauchy_inv loc scale)
+           (fun x => sp_cauchy_pdf loc scale x) std_uniform_pdf (fun x => exp (cuqi_cauchy_logpdf loc scale x)) (fun u => u) a b).
+  - apply push_cauchy. exact Hs.
+  - intros x _. unfold sp_cauchy_pdf. apply Rinv_0_lt_compat. pose proof PI_RGT_0. pose proof (pow2_ge_0 ((x - loc) / scale)).
+    apply Rmult_lt_0_compat; [apply Rmult_lt_0_compat|]; lra.
+  - intros u _. unfold std_uniform_pdf. auto_derive; [exact I | ring].
+  - exact Hab.
+  - intros x _. exact I.
+  - intros x _. apply continuous_cauchy_pdf. exact Hs.
+Qed.
+
+Lemma continuous_laplace_pdf loc scale x : 0 < scale -> continuous (fun x => exp (cuqi_laplace_logpdf loc scale x)) x.
+Proof.
+  intros Hs. apply (continuous_ext (fun x => np_laplace_pdf loc scale x)); [intros t; apply wiring_laplace; exact Hs|].
+  unfold np_laplace_pdf. apply continuity_pt_filterlim. reg.
+Qed.
+
+Theorem laplace_interval_prob loc scale a b : 0 < scale -> a <= b ->
+  is_RInt (fun x => exp (cuqi_laplace_logpdf loc scale x)) a b (laplace_inv loc scale b - laplace_inv loc scale a).
+Proof.
+  intros Hs Hab.
+  apply (pushes_interval_increasing unit_open everywhere (laplace_push loc scale) (laplace_inv loc scale)
+           (fun x => np_laplace_pdf loc scale x) std_uniform_pdf (fun x => exp (cuqi_laplace_logpdf loc scale x)) (fun u => u) a b).
+  - apply push_laplace. exact Hs.
+  - intros x _. unfold np_laplace_pdf. pose proof (exp_pos (- Rabs (x - loc) / scale)).
+    assert (0 < / (2 * scale)) by (apply Rinv_0_lt_compat; lra). nra.
+  - intros u _. unfold std_uniform_pdf. auto_derive; [exact I | ring].
+  - exact Hab.
+  - intros x _. exact I.
+  - intros x _. apply continuous_laplace_pdf. exact Hs.
+Qed.
+
+Lemma continuous_lognormal_pdf mean std x : 0 < std -> 0 < x -> continuous (cuqi_lognormal_pdf mean std) x.
+Proof.
+  intros Hs Hx. apply (ex_derive_continuous (K := R_AbsRing) (V := R_NormedModule) (cuqi_lognormal_pdf mean std) x).
+  unfold cuqi_lognormal_pdf, normal_pdf. auto_derive. repeat split; lra.
+Qed.
+
+Theorem lognormal_interval_prob (Phi : R -> R) mean std a b : 0 < std -> 0 < a -> a <= b ->
+  (forall z, is_derive Phi z (std_normal_pdf z)) ->
+  is_RInt (cuqi_lognormal_pdf mean std) a b (Phi ((ln b - mean) / std) - Phi ((ln a - mean) / std)).
+Proof.
+  intros Hs Ha Hab HPhi.
+  apply (pushes_interval_increasing everywhere positive_R (fun z => exp (normal_push mean std z)) (fun x => affine_inv mean std (ln x))
+           (fun x => / std * / x) std_normal_pdf (cuqi_lognormal_pdf mean std) Phi a b).
+  - apply push_lognormal_from_std. exact Hs.
+  - intros x Hx. unfold positive_R in Hx. apply Rmult_lt_0_compat; apply Rinv_0_lt_compat; assumption.
+  - intros u _. apply HPhi.
+  - exact Hab.
+  - intros x Hx. unfold positive_R. lra.
+  - intros x Hx. apply continuous_lognormal_pdf; [exact Hs | lra].
+Qed.
+
+(* Gamma and InverseGamma, given a distribution function FG of the standard Gamma(shape) law *)
+Lemma continuous_gamma_pdf Gam shape rate x : 0 < x -> continuous (cuqi_gamma_pdf Gam shape rate) x.
+Proof.
+  intros Hx. apply (ex_derive_continuous (K := R_AbsRing) (V := R_NormedModule) (cuqi_gamma_pdf Gam shape rate) x).
+  unfold cuqi_gamma_pdf, Rpower. auto_derive. repeat split; lra.
+Qed.
+
+Theorem gamma_interval_prob (FG : R -> R) Gam shape rate a b : 0 < rate -> Gam <> 0 -> 0 < a -> a <= b ->
+  (forall g, 0 < g -> is_derive FG g (std_gamma_pdf Gam shape g)) ->
+  is_RInt (cuqi_gamma_pdf Gam shape rate) a b (FG (rate * b) - FG (rate * a)).
+Proof.
+  intros Hr HG Ha Hab HFG.
+  apply (pushes_interval_increasing positive_R positive_R (gamma_push rate) (gamma_inv rate) (fun _ => rate)
+           (std_gamma_pdf Gam shape) (cuqi_gamma_pdf Gam shape rate) FG a b).
+  - apply push_gamma; assumption.
+  - intros x _. exact Hr.
+  - intros u Hu. apply HFG. exact Hu.
+  - exact Hab.
+  - intros x Hx. unfold positive_R. lra.
+  - intros x Hx. apply continuous_gamma_pdf. lra.
+Qed.
+
+Lemma continuous_invgamma_pdf Gam a loc scale x : loc < x -> continuous (cuqi_invgamma_pdf Gam a loc scale) x.
+Proof.
+  intros Hx. apply (ex_derive_continuous (K := R_AbsRing) (V := R_NormedModule) (cuqi_invgamma_pdf Gam a loc scale) x).
+  unfold cuqi_invgamma_pdf, Rpower. auto_derive. repeat split; lra.
+Qed.
+
+Theorem invgamma_interval_prob (FG : R -> R) Gam a loc scale x1 x2 : 0 < scale -> Gam <> 0 -> loc < x1 -> x1 <= x2 ->
+  (forall g, 0 < g -> is_derive FG g (std_gamma_pdf Gam a g)) ->
+  is_RInt (cuqi_invgamma_pdf Gam a loc scale) x1 x2 (FG (scale / (x1 - loc)) - FG (scale / (x2 - loc))).
+Proof.
+  intros Hs HG H1 H12 HFG.
+  apply (pushes_interval_decreasing positive_R (fun x => loc < x) (recip_push loc scale) (fun x => scale / (x - loc))
+           (fun x => - (scale / (x - loc) ^ 2)) (std_gamma_pdf Gam a) (cuqi_invgamma_pdf Gam a loc scale) FG x1 x2).
+  - apply push_recip_gamma; assumption.
+  - intros x Hx. assert (0 < scale / (x - loc) ^ 2) by (apply Rdiv_lt_0_compat; [exact Hs | apply pow_lt; lra]). lra.
+  - intros u Hu. apply HFG. exact Hu.
+  - exact H12.
+  - intros x Hx. lra.
+  - intros x Hx. apply continuous_invgamma_pdf. lra.
+Qed.
+
+(* ---------------- rejection samplers: from "proposal x acceptance proportional to the target" to probabilities ----------------
+   If log g + log acc - log f is the constant K on [a,b] and J is the integral of the target f = exp(logf) over [a,b], then the
+   probability that one round of the rejection loop proposes a point of [a,b] AND accepts it is exp(K) J: proportional to the
+   target mass of the interval, with a constant free of the interval -- so accepted draws are distributed as f / (integral of f). *)
+Theorem rejection_interval (logg logacc logf : R -> R) K J a b : a <= b ->
+  (forall x, a <= x <= b -> logg x + logacc x - logf x = K) ->
+  is_RInt (fun x => exp (logf x)) a b J ->
+  is_RInt (fun x => exp (logg x) * exp (logacc x)) a b (exp K * J).
+Proof.
+  intros Hab HK HJ.
+  apply (is_RInt_ext (fun x => scal (exp K) (exp (logf x)))).
+  - intros x Hx. rewrite Rmin_left, Rmax_right in Hx by exact Hab. unfold scal; simpl; unfold mult; simpl.
+    rewrite <- !exp_plus. f_equal. rewrite <- (HK x) by lra. ring.
+  - apply (is_RInt_scal (fun x => exp (logf x)) a b (exp K) J). exact HJ.
+Qed.
+
+(* ModifiedHalfNormal, scheme 1, on any interval of the positive half line: the target is integrable there and proposal x acceptance
+   integrates to a fixed multiple of the target mass *)
+Theorem mhn_gamma_scheme_interval lnGam a b g x1 x2 : 0 < a -> 0 < b -> 0 < g -> 0 < x1 -> x1 <= x2 ->
+  let d := mhn_delta a b g in
+  exists J, is_RInt (fun x => exp (mhn_logf a b g x)) x1 x2 J /\
+            is_RInt (fun x => exp (mhn_gam_logg lnGam a d x) * exp (mhn_gam_logacc b g d x)) x1 x2
+                    (exp ((a / 2) * ln d - lnGam + ln 2 - g * g / (4 * (b - d))) * J).
+Proof.
+  intros Ha Hb Hg H1 H12 d.
+  assert (Hex : ex_RInt (fun x => exp (mhn_logf a b g x)) x1 x2).
+  { apply (ex_RInt_continuous (V := R_CompleteNormedModule)). intros x Hx. rewrite Rmin_left, Rmax_right in Hx by exact H12.
+    apply (ex_derive_continuous (K := R_AbsRing) (V := R_NormedModule) (fun x => exp (mhn_logf a b g x)) x).
+    unfold mhn_logf. auto_derive. lra. }
+  destruct Hex as [J HJ]. exists J. split; [exact HJ|].
+  apply (rejection_interval (mhn_gam_logg lnGam a d) (mhn_gam_logacc b g d) (mhn_logf a b g) _ J x1 x2 H12); [|exact HJ].
+  intros x Hx. pose proof (mhn_delta_range a b g Ha Hb Hg) as Hd. fold d in Hd.
+  apply mhn_gamma_proposal_proportional; [lra | apply Rgt_not_eq; apply (proj2 Hd)].
+Qed.
+
+Lemma mhn_target_integrable a b g x1 x2 : 0 < x1 -> x1 <= x2 -> ex_RInt (fun x => exp (mhn_logf a b g x)) x1 x2.
+Proof.
+  intros H1 H12. apply (ex_RInt_continuous (V := R_CompleteNormedModule)). intros x Hx.
+  rewrite Rmin_left, Rmax_right in Hx by exact H12.
+  apply (ex_derive_continuous (K := R_AbsRing) (V := R_NormedModule) (fun x => exp (mhn_logf a b g x)) x).
+  unfold mhn_logf. auto_derive. lra.
+Qed.
+
+(* scheme 2 with the acceptance ratio of the code as it stands since /repo commit a9664e2 (mhn_norm_logacc_fixed), any mu *)
+Theorem mhn_normal_scheme_interval a b g mu x1 x2 : 0 < b -> 0 < x1 -> x1 <= x2 ->
+  exists J, is_RInt (fun x => exp (mhn_logf a b g x)) x1 x2 J /\
+            is_RInt (fun x => exp (mhn_norm_logg b mu x) * exp (mhn_norm_logacc_fixed a b g mu x)) x1 x2
+                    (exp (b * mu * mu - g * mu - ln mu - ln (sqrt (PI / b)) - (a - 2) * ln mu) * J).
+Proof.
+  intros Hb H1 H12. destruct (mhn_target_integrable a b g x1 x2 H1 H12) as [J HJ]. exists J. split; [exact HJ|].
+  apply (rejection_interval (mhn_norm_logg b mu) (mhn_norm_logacc_fixed a b g mu) (mhn_logf a b g) _ J x1 x2 H12); [|exact HJ].
+  intros x Hx. pose proof (mhn_normal_proposal_proportional a b g mu x Hb) as E.
+  rewrite mhn_norm_logacc_code_vs_fixed in E. lra.
+Qed.
+
+(* scheme 3 (gamma <= 0), any matching point m > 0 *)
+Theorem mhn_negative_scheme_interval lnGam a b g m x1 x2 : 0 < b -> g <= 0 -> 0 < m -> 0 < x1 -> x1 <= x2 ->
+  exists J, is_RInt (fun x => exp (mhn_logf a b g x)) x1 x2 J /\
+            is_RInt (fun x => exp (mhn_neg_logg lnGam a b g m x) * exp (mhn_neg_logacc b g m (mhn_neg_t b g m x))) x1 x2
+                    (exp (a * mhn_neg_v1 b g m * ln (mhn_neg_v2 b g m) - lnGam + ln (/ (mhn_neg_v1 b g m * m)) - (a - 1) * ln m) * J).
+Proof.
+  intros Hb Hg Hm H1 H12. destruct (mhn_target_integrable a b g x1 x2 H1 H12) as [J HJ]. exists J. split; [exact HJ|].
+  apply (rejection_interval (mhn_neg_logg lnGam a b g m) (fun x => mhn_neg_logacc b g m (mhn_neg_t b g m x)) (mhn_logf a b g) _ J x1 x2 H12);
+    [|exact HJ].
+  intros x Hx. apply mhn_negative_gamma_proportional; try assumption. lra.
+Qed.
+
+(* ---------------- ModifiedHalfNormal scheme 3: X = m T^v1, T ~ Gamma(a v1, rate v2) ---------------- *)
+Lemma Rpower_inv_exp x c : 0 < x -> 0 < c -> Rpower (Rpower x c) (/ c) = x.
+Proof. intros Hx Hc. rewrite Rpower_mult. replace (c * / c) with 1 by (field; lra). apply Rpower_1. exact Hx. Qed.
+
+Theorem push_mhn_scheme3 lnGam a b g m : 0 < b -> g <= 0 -> 0 < m ->
+  let v1 := mhn_neg_v1 b g m in let v2 := mhn_neg_v2 b g m in
+  pushes positive_R positive_R (mhn_neg_x b g m) (mhn_neg_t b g m)
+         (fun x => / (v1 * m) * Rpower (x / m) (/ v1 - 1))
+         (fun t => exp ((a * v1 - 1) * ln t - v2 * t + (a * v1) * ln v2 - lnGam))
+         (fun x => exp (mhn_neg_logg lnGam a b g m x)).
+Proof.
+  intros Hb Hg Hm v1 v2. destruct (mhn_neg_params b g m Hb Hg Hm) as [[V1a V1b] V2]. fold v1 in V1a, V1b. fold v2 in V2.
+  assert (Hv1 : 0 < v1) by lra. assert (Hiv : 0 < / v1) by (apply Rinv_0_lt_compat; exact Hv1).
+  split; [|split].
+  - intros t Ht. unfold positive_R in *. unfold mhn_neg_x, mhn_neg_t. fold v1. pose proof (Rpower_pos t v1) as Hp. split; [nra|].
+    replace (m * Rpower t v1 / m) with (Rpower t v1) by (field; lra). apply Rpower_inv_exp; assumption.
+  - intros x Hx. unfold positive_R in *. assert (Hq : 0 < x / m) by (apply Rdiv_lt_0_compat; assumption).
+    split; [unfold mhn_neg_t; apply Rpower_pos|]. split; [|split; [|split]].
+    + unfold mhn_neg_x, mhn_neg_t. fold v1. rewrite Rpower_mult. replace (/ v1 * v1) with 1 by (field; lra).
+      rewrite Rpower_1 by exact Hq. field. lra.
+    + unfold mhn_neg_t. fold v1. unfold Rpower. auto_derive; [exact Hq|].
+      replace ((/ v1 - 1) * ln (x / m)) with (/ v1 * ln (x / m) + - ln (x / m)) by ring.
+      rewrite exp_plus, exp_Ropp, exp_ln by exact Hq. unfold Rdiv. field. repeat split; lra.
+    + apply Rgt_not_eq. apply Rmult_lt_0_compat; [apply Rinv_0_lt_compat; apply Rmult_lt_0_compat; assumption | apply Rpower_pos].
+    + rewrite Rabs_pos_eq by (left; apply Rmult_lt_0_compat; [apply Rinv_0_lt_compat; apply Rmult_lt_0_compat; assumption | apply Rpower_pos]).
+      unfold mhn_neg_logg. cbv zeta. fold v1. fold v2. rewrite exp_plus. f_equal.
+      rewrite exp_plus, exp_ln by (apply Rinv_0_lt_compat; apply Rmult_lt_0_compat; assumption). reflexivity.
+  - left. intros u v Hu Hv L. unfold positive_R in *. unfold mhn_neg_x. fold v1.
+    assert (Rpower u v1 < Rpower v v1) by (apply Rlt_Rpower_l; lra). nra.
+Qed.
+
+(* ---------------- the distribution functions assumed above exist (fundamental theorem of calculus) ---------------- *)
+Lemma antiderivative_on (f : R -> R) (lo c : R) : lo < c ->
+  (forall x, lo < x -> continuous f x) ->
+  forall x, lo < x -> is_derive (fun b => RInt f c b) x (f x).
+Proof.
+  intros Hc Hf x Hx.
+  apply (is_derive_RInt f (fun b => RInt f c b) c x); [|apply Hf; exact Hx].
+  generalize (locally_gt lo x Hx). apply filter_imp. intros b Hb.
+  apply (RInt_correct (V := R_CompleteNormedModule)). apply (ex_RInt_continuous (V := R_CompleteNormedModule)).
+  intros t Ht. apply Hf. apply Rlt_le_trans with (Rmin c b); [apply Rmin_glb_lt; assumption | apply Ht].
+Qed.
+
+Lemma continuous_std_normal_pdf z : continuous std_normal_pdf z.
+Proof.
+  apply (ex_derive_continuous (K := R_AbsRing) (V := R_NormedModule) std_normal_pdf z). unfold std_normal_pdf. auto_derive. exact I.
+Qed.
+
+Lemma std_normal_cdf_exists : exists Phi : R -> R, forall z, is_derive Phi z (std_normal_pdf z).
+Proof.
+  exists (fun b => RInt std_normal_pdf 0 b). intros z.
+  apply (antiderivative_on std_normal_pdf (z - 1 - Rabs z) 0); [pose proof (Rle_abs z); lra | | pose proof (Rabs_pos z); lra].
+  intros x _. apply continuous_std_normal_pdf.
+Qed.
+
+Lemma continuous_std_gamma_pdf Gam a g : 0 < g -> continuous (std_gamma_pdf Gam a) g.
+Proof.
+  intros Hg. apply (ex_derive_continuous (K := R_AbsRing) (V := R_NormedModule) (std_gamma_pdf Gam a) g).
+  unfold std_gamma_pdf, Rpower. auto_derive. lra.
+Qed.
+
+Lemma std_gamma_cdf_exists Gam a : exists FG : R -> R, forall g, 0 < g -> is_derive FG g (std_gamma_pdf Gam a g).
+Proof.
+  exists (fun b => RInt (std_gamma_pdf Gam a) 1 b). intros g Hg.
+  apply (antiderivative_on (std_gamma_pdf Gam a) 0 1); [lra | | exact Hg].
+  intros x Hx. apply continuous_std_gamma_pdf. exact Hx.
+Qed.
+
+(* the interval theorems with NO hypothesis left: some function Phi / FG (an antiderivative of the base density, i.e. a distribution
+   function of the base law up to an additive constant) gives the probability of every interval *)
+Theorem normal_interval_prob_closed : exists Phi : R -> R, (forall z, is_derive Phi z (std_normal_pdf z)) /\
+  (forall mean std a b, 0 < std -> a <= b ->
+     is_RInt (fun x => exp (cuqi_normal_logpdf mean std x)) a b (Phi ((b - mean) / std) - Phi ((a - mean) / std))) /\
+  (forall mean std a b, 0 < std -> 0 < a -> a <= b ->
+     is_RInt (cuqi_lognormal_pdf mean std) a b (Phi ((ln b - mean) / std) - Phi ((ln a - mean) / std))).
+Proof.
+  destruct std_normal_cdf_exists as [Phi HPhi]. exists Phi. split; [exact HPhi|]. split.
+  - intros. apply normal_interval_prob; assumption.
+  - intros. apply lognormal_interval_prob; assumption.
+Qed.
+
+Theorem gamma_interval_prob_closed Gam shape : Gam <> 0 -> exists FG : R -> R,
+  (forall g, 0 < g -> is_derive FG g (std_gamma_pdf Gam shape g)) /\
+  (forall rate a b, 0 < rate -> 0 < a -> a <= b ->
+     is_RInt (cuqi_gamma_pdf Gam shape rate) a b (FG (rate * b) - FG (rate * a))) /\
+  (forall loc scale x1 x2, 0 < scale -> loc < x1 -> x1 <= x2 ->
+     is_RInt (cuqi_invgamma_pdf Gam shape loc scale) x1 x2 (FG (scale / (x1 - loc)) - FG (scale / (x2 - loc)))).
+Proof.
+  intros HG. destruct (std_gamma_cdf_exists Gam shape) as [FG HFG]. exists FG. split; [exact HFG|]. split.
+  - intros. apply gamma_interval_prob; assumption.
+  - intros. apply invgamma_interval_prob; assumption.
+Qed.
